@@ -61,7 +61,12 @@ Definition spec_r (c : rcase) : list (N * bool) :=
     (* 34: must succeed *)
     (34, r_ok c);
     (* 35: push leaves the local cache alone, fetch leaves the remote alone *)
-    (35, if r_push c then cache_eqb local (r_post_cache c) else cache_eqb (r_remote c) (r_post_remote c)) ].
+    (35, if r_push c then cache_eqb local (r_post_cache c) else cache_eqb (r_remote c) (r_post_remote c));
+    (* 36: whatever the outcome, every object of the local cache is read-only afterwards (also the ones
+       a failed transfer brought in) *)
+    (36, forallb (fun kv => (o_mode (snd kv) =? cache_perms)%N) (r_post_cache c));
+    (* 37: must fail *)
+    (37, negb (r_ok c)) ].
 
 Definition r_fails (c : rcase) : list N :=
   map fst (filter (fun e => existsb (N.eqb (fst e)) (r_specs c) && negb (snd e)) (spec_r c)).
